@@ -1,3 +1,5 @@
+import SlipVerif.Model.Conc
 import SlipVerif.Model.Num
+import SlipVerif.Driver.Conc
 import SlipVerif.Driver.Num
 import SlipVerif.Driver.Util
